@@ -81,6 +81,7 @@ mod proofs {
 	fn nondet1(_x: f64) -> f64 { kani::any() }
 	fn powi_stub(b: f64, e: i32) -> f64 { kani::assume(b == 2.0 && e >= 0 && e <= 31); f64::from_bits(((1023 + e) as u64) << 52) }
 	fn has(b: &TileBBox, x: u32, y: u32) -> bool { x >= b.x_min && x <= b.x_max && y >= b.y_min && y <= b.y_max }
+	fn empty(b: &TileBBox) -> bool { b.x_max < b.x_min || b.y_max < b.y_min }
 	fn wf_nonempty(b: &TileBBox, z: u8) -> bool { b.level == z && b.max == ((1u64 << z) - 1) as u32 && b.x_min <= b.x_max && b.y_min <= b.y_max && b.x_max <= b.max && b.y_max <= b.max }
 	fn any_geo() -> GeoBBox { GeoBBox(kani::any(), kani::any(), kani::any(), kani::any()) }
 
@@ -185,6 +186,30 @@ mod proofs {
 		if has(&p.level_bbox[z], x, y) { assert!(has(&old.level_bbox[z], x, y)); }   // ... and the coverage only shrinks
 		let n = &p.level_bbox[z];
 		assert!(n.level as usize == z && n.x_max <= n.max && n.y_max <= n.max);
+		x_axis_is_intersection(&old.level_bbox[z], n, z as u8, &g);
+	}
+	// on EVERY level the retained columns are exactly the old columns inside the geographic box (the x axis is exact IEEE arithmetic;
+	// the y axis goes through the nondeterministic libm stubs and is not compared)
+	fn x_axis_is_intersection(o: &TileBBox, n: &TileBBox, z: u8, g: &GeoBBox) {
+		let gx0 = TileCoord2::from_geo(g.0, 0.0, z, false).unwrap().x;
+		let gx1 = TileCoord2::from_geo(g.2, 0.0, z, true).unwrap().x.max(gx0);
+		if empty(o) { assert!(empty(n)); } else { assert!(n.x_min == o.x_min.max(gx0) && n.x_max == o.x_max.min(gx1)); }
+	}
+	// harness: kind=bounded bound="one fixed geographic box [-10.5, -20.25, 30.75, 40.0]; any well-formed pyramid; every one of the 32 levels probed" tier=thorough props=C09,C06,C15 fn=TileBBoxPyramid::intersect_geo_bbox timeout=1800 mem=16
+	#[kani::proof]
+	#[kani::unwind(34)]
+	#[kani::stub(f64::tan, nondet1)]
+	#[kani::stub(f64::ln, nondet1)]
+	#[kani::stub(f64::powi, powi_stub)]
+	fn geo_pyramid_intersect_every_level_fixed_box() {
+		let mut p = TileBBoxPyramid { level_bbox: kani::any() };
+		let mut i = 0;
+		while i < 32 { let b = &p.level_bbox[i]; kani::assume(b.level as usize == i && b.max == ((1u64 << i) - 1) as u32 && b.x_max <= b.max && b.y_max <= b.max); i += 1; }
+		let old = p.clone();
+		let g = GeoBBox(-10.5, -20.25, 30.75, 40.0);
+		p.intersect_geo_bbox(&g);
+		let z: usize = kani::any(); kani::assume(z < 32);
+		x_axis_is_intersection(&old.level_bbox[z], &p.level_bbox[z], z as u8, &g);
 	}
 
 	// harness: kind=canary expect=fail tier=quick props=C15,C09,C06,C19 timeout=1200
